@@ -326,11 +326,14 @@ Definition api_step (c : scfg) (ks : nat -> list N) (a : ast) (o : op) : ast * l
            [], RNone)
       end
   | OSendPrepared i =>
-      (* sendPreparedMessage: size limit, then self.sendData(preparedMsg.payloadHybi)  -- no state check at all *)
+      (* sendPreparedMessage: connection state, size limit, then self.sendData(preparedMsg.payloadHybi); send_state is
+         not looked at *)
       match nth_error (prepared a) i with
       | Some pm =>
+          (* if self.state != STATE_OPEN: raise Disconnected("Attempt to send on a closed protocol") *)
+          if negb (is_open a) then (a, [], RRaise ExDisconnected)
           (* payload_len = preparedMsg.payloadLength; if 0 < self.maxMessagePayloadSize < payload_len: raise *)
-          if (0 <? max_message_payload_size c) && (max_message_payload_size c <? lenN (pm_payload pm))
+          else if (0 <? max_message_payload_size c) && (max_message_payload_size c <? lenN (pm_payload pm))
           then (a, [], RRaise ExPayloadExceeded)
           else (a, [mkSd (pm_hybi pm) false None], RNone)
       | None => (a, [], RRaise ExAssertion)          (* harness artefact: no such object; never generated *)
